@@ -90,6 +90,8 @@ class Bench:
             self.proto.protocol_v2._comm_issue = False
         self.world.reset_counters()
         self.world.connect_failures = 0
+        for dg in self.world.dongles:
+            del dg.queued[:]     # the bench skips the repair (flag cleared by hand): what a close would drop
         del self.world.log[:]
         # make sure the link object is open (a previous run may have closed it)
         try:
